@@ -888,9 +888,22 @@ class Prover:
         out = []
         if inner[0] == "call":
             n = inner[1]
-            if n.endswith("<impl [T]>::first") and len(inner[2]) == 1:
+            if n.endswith(("<impl [T]>::first", "<impl [T]>::last", "<impl [T]>::split_first", "<impl [T]>::split_last")) and \
+                    len(inner[2]) == 1:
                 L = self.lin(("call", LEN_CALLS[0], (inner[2][0],), None, ()))
                 out.append(L.add(Lin(1), -1) if some else L.scale(-1))
+            elif n.endswith(("<impl [T]>::split_first_chunk", "<impl [T]>::first_chunk", "<impl [T]>::split_last_chunk",
+                             "<impl [T]>::last_chunk")) and len(inner[2]) == 1:
+                # Some iff len >= N (the const generic argument of the call)
+                ga = inner[4] if len(inner) > 4 else ()
+                ns = [int(g_) for g_ in ga if str(g_).isdigit()]
+                if len(ns) == 1:
+                    L = self.lin(("call", LEN_CALLS[0], (inner[2][0],), None, ()))
+                    out.append(L.add(Lin(ns[0]), -1) if some else Lin(ns[0] - 1).add(L, -1))
+            elif n.endswith("<impl [T]>::split_at_checked") and len(inner[2]) == 2:
+                L = self.lin(("call", LEN_CALLS[0], (inner[2][0],), None, ()))
+                M = self.lin(inner[2][1])
+                out.append(L.add(M, -1) if some else M.add(L, -1).add(Lin(1), -1))
             elif n.endswith("<impl [T]>::get") and len(inner[2]) == 2:
                 idx = strip_ref(inner[2][1])
                 L = self.lin(("call", LEN_CALLS[0], (inner[2][0],), None, ()))
